@@ -558,7 +558,7 @@ PROPERTY = Property(
                       "length, optical time, turning events, arrival direction; non-trivial = two solutions",
                  floors={"sol=2": 0.3, "reflected": 0.03, "refracted_turn": 0.02}, classify=_classify),
         SubCheck("numeric", pair_specs(numeric=True), check_numeric,
-                 quick=320, thorough=12000,
+                 quick=800, thorough=30000,
                  rule="same pairs x dz in {2,1,0.5,0.25} traced by BasicRayTracer; quadrature reference in "
                       "the true profile with the dz-discretisation budget (omitted dz/10 segments + "
                       "singular trapezoid panels) as tolerance; non-trivial = two solutions",
